@@ -300,7 +300,9 @@ def entries(seed, premade=None):
     Pxx_dead[1, 0, :] = 0
     Pxx_dead[1, :, 0] = 0                                         # first microphone silent in bin 1
     reg('get_wmwf_vector[frequency_dependent, silent first channel in one bin]',
-        lambda args: bf.get_wmwf_vector(args[0], args[1], distortion_weight='frequency_dependent'), Pxx_dead, Pnn)
+        lambda args: bf.get_wmwf_vector(args[0], args[1], reference_channel=1,     # (the automatic choice asserts
+                                        distortion_weight='frequency_dependent'),  # on the non-finite bin)
+        Pxx_dead, Pnn)
     reg('get_wmwf_vector[frequency_dependent]',
         lambda args: bf.get_wmwf_vector(args[0], args[1], distortion_weight='frequency_dependent'), Pxx, Pnn)
     reg('get_mvdr_vector_souden[ref 1]', lambda args: bf.get_mvdr_vector_souden(args[0], args[1], ref_channel=1), Pxx, Pnn)
